@@ -729,8 +729,26 @@ fn run_session_case(ctx: &mut Ctx, rng: &mut Rng, resp: &[Vec<u8>], untagged: &[
             if !fine {
                 line = format!("{} {} done\r\n", tag, status).into_bytes();
             }
+            // buffer-aligned answers: one time in twelve the complete answer to this command ends exactly on a
+            // multiple of a receive-buffer size (tokio-util starts with 8 KiB and doubles): a filler response in
+            // front of the completion makes up the difference.  With a reactive server the peer is then silent
+            // exactly when the receive buffer is full.
+            let mut aligned = false;
+            if rng.chance(1, 12) {
+                let unit = *rng.pick(&[8192usize, 8192, 8192, 4096, 1024]);
+                let so_far = server.len() + part.len() + line.len();
+                let target = ((so_far + 8 + unit - 1) / unit) * unit;
+                let f = target - so_far;
+                if f >= 8 && f <= 9_000 && so_far < 9_000 {
+                    let mut filler = b"* OK ".to_vec();
+                    filler.extend(std::iter::repeat(b'x').take(f - 7));
+                    filler.extend_from_slice(b"\r\n");
+                    part.extend_from_slice(&filler);
+                    aligned = true;
+                }
+            }
             part.extend_from_slice(&line);
-            if rng.chance(1, 5) {
+            if !aligned && rng.chance(1, 5) {
                 { let e: &Vec<u8> = rng.pick(untagged); part.extend_from_slice(e); } // unsolicited data after the completion
             }
         }
